@@ -53,12 +53,51 @@ def _sweep(tier):
     return _SWEEP[tier]
 
 
+_CANCEL = []
+
+
+def _cancel_cases():
+    """A caller task is cancelled by ITS caller (task.cancel()) while queued for the protocol, or (TCP) while its
+    request is in flight; the other callers must still be serialised and get their own answers.  UDP with keep-alive
+    off is left out: there the cancelled caller's close() closes the socket of the request in flight (DESIGN 13.9)."""
+    if not _CANCEL:
+        tau, lat = 1.0, DEFAULT_LATENCY
+        for tr, ka in (("udp", True), ("tcp", True), ("tcp", False)):
+            for r in (0, 1, 2):
+                for a_fault in ({"k": "ok", "d": tau / 2}, {"k": "ok", "d": lat}, {"k": "drop"}):
+                    for cancel_at in (EPS, lat / 2, tau / 4):
+                        for c_start in (3 * EPS, lat, tau / 4 + EPS, tau / 2 - EPS):
+                            if a_fault.get("d") == lat and cancel_at >= lat:
+                                continue
+                            _CANCEL.append({"transport": tr, "keep_alive": ka, "timeout": tau, "retries": r,
+                                            "count": 2, "level": "execute", "cancel_mode": "queued",
+                                            "callers": [{"start": 0.0, "ops": [{"reg": 0x1001, "think": 0.0}]},
+                                                        {"start": EPS, "ops": [{"reg": 0x1002, "think": 0.0,
+                                                                                "cancel": cancel_at}]},
+                                                        {"start": c_start, "ops": [{"reg": 0x1003, "think": 0.0}]}],
+                                            "faults": [dict(a_fault)], "sweep": True})
+        for ka in (True, False):
+            for r in (0, 1, 2):
+                for a_delay in (tau / 2, tau - EPS):
+                    for cancel_at in (lat / 2, tau / 4, tau / 2 - EPS):
+                        for b_start in (EPS, lat, cancel_at, cancel_at + EPS):
+                            _CANCEL.append({"transport": "tcp", "keep_alive": ka, "timeout": tau, "retries": r,
+                                            "count": 2, "level": "execute", "cancel_mode": "inflight",
+                                            "callers": [{"start": 0.0, "ops": [{"reg": 0x1001, "think": 0.0,
+                                                                                "cancel": cancel_at}]},
+                                                        {"start": b_start, "ops": [{"reg": 0x1002, "think": 0.0}]},
+                                                        {"start": tau / 8, "ops": [{"reg": 0x1003, "think": 0.0}]}],
+                                            "faults": [{"k": "ok", "d": a_delay}], "sweep": True})
+    return _CANCEL
+
+
 def warm(tier):
     _sweep(tier)
+    _cancel_cases()
 
 
 def n_cases(tier):
-    return len(_sweep(tier)) + N_RANDOM[tier]
+    return len(_sweep(tier)) + len(_cancel_cases()) + N_RANDOM[tier]
 
 
 def _sweep_case(tier, index):
@@ -91,6 +130,10 @@ def make_case(tier, seed, index):
     if index < ns:
         return _sweep_case(tier, index)
     index -= ns
+    if index < len(_cancel_cases()):
+        import copy
+        return copy.deepcopy(_cancel_cases()[index])
+    index -= len(_cancel_cases())
     return random_case(C.rng_for(seed, ID, index))
 
 
@@ -176,10 +219,24 @@ def simulate(case):
             if op["think"]:
                 await asyncio.sleep(op["think"])
             label = f"c{ci}o{oi}"
-            if case["level"] == "inverter":
-                rec = await C.do_call(world, label, lambda: inv.read_sensor("modbus-%d" % op["reg"]))
+
+            async def one(op=op, label=label):
+                if case["level"] == "inverter":
+                    return await C.do_call(world, label, lambda: inv.read_sensor("modbus-%d" % op["reg"]))
+                return await C.do_execute(world, proto, {"op": "read", "reg": op["reg"], "count": count}, label)
+            if op.get("cancel") is not None:
+                # the caller of this caller cancels it after a delay
+                t = asyncio.ensure_future(one())
+                t.set_name(label)
+                await asyncio.sleep(op["cancel"])
+                t.cancel()
+                try:
+                    rec = await t
+                except asyncio.CancelledError:
+                    rec = {"label": label, "outcome": "cancelled", "t0": None, "t1": world.clock.now}
+                rec["cancelled"] = True
             else:
-                rec = await C.do_execute(world, proto, {"op": "read", "reg": op["reg"], "count": count}, label)
+                rec = await one()
             rec["caller"] = ci
             rec["reg"] = op["reg"]
             rec["seq0"] = None
@@ -246,6 +303,7 @@ def run_case(case):
             complete[i] = max(d["t_run"] for d in dls)
     # (2) one request on the wire
     txs = net.transmissions
+    returned = {rec["reg"]: rec["t1"] for rec in results if rec.get("cancelled")}
     for a in txs:
         for b in txs:
             if a is b or a["reg"] == b["reg"]:
@@ -258,6 +316,8 @@ def run_case(case):
             ca = complete.get(a["i"])
             if ca is not None and ca < end:
                 end = ca
+            if a["reg"] in returned and returned[a["reg"]] < end:
+                end = returned[a["reg"]]   # a cancelled request that has returned waits for nothing
             if b["t"] < end:
                 violations.append(viol(f"C06:overlap:{tr}",
                                        f"transmission #{b['i']} (reg {b['reg']}) at t={b['t']} while request for reg "
@@ -285,6 +345,8 @@ def run_case(case):
                 violations.append(viol(f"C06:foreign-answer:{tr}",
                                        f"caller {rec['caller']} asked for reg {rec['reg']} and received {got.hex()} "
                                        f"which answers {whose or 'no transmission'}"))
+        elif rec.get("cancelled"):
+            pass
         elif rec["outcome"] in ("failed", "maxretries"):
             if answered:
                 violations.append(viol(f"C06:lost-answer:{tr}",
@@ -293,7 +355,7 @@ def run_case(case):
         else:
             violations.append(viol(f"C06:outcome:{tr}:{rec['outcome']}",
                                    f"caller {rec['caller']} reg {rec['reg']}: {rec['outcome']} {rec.get('exc')!r}"))
-        if rec["outcome"] == "result" and not answered:
+        if rec["outcome"] == "result" and not answered and not rec.get("cancelled"):
             violations.append(viol(f"C06:phantom-answer:{tr}",
                                    f"caller {rec['caller']} reg {rec['reg']} succeeded but none of its transmissions "
                                    f"was answered"))
@@ -320,16 +382,19 @@ def run_case(case):
             if any(t["reg"] != reg for t in txs[x["i"] + 1:y["i"]]):
                 requeued += 1
     overlap_in_time = 0
-    rs = sorted(results, key=lambda q: q["t0"])
+    rs = sorted([q for q in results if q.get("t0") is not None], key=lambda q: q["t0"])
     for x, y in zip(rs, rs[1:]):
         if y["t0"] < x["t1"] or (y["t0"] == x["t1"]):
             overlap_in_time += 1
     nontrivial = overlap_in_time > 0 or any(t["fault"] != "ok" for t in txs)
     probes = {"retry_requeued_behind_other_caller": requeued, "callers_overlapping": overlap_in_time,
-              "requests": len(results), "fragments_composed": sum(1 for i in complete if txs[i]["f"]["k"] == "frag")}
+              "requests": len(results), "fragments_composed": sum(1 for i in complete if txs[i]["f"]["k"] == "frag"),
+              "caller_cancelled_queued": 1 if case.get("cancel_mode") == "queued" else 0,
+              "caller_cancelled_inflight": 1 if case.get("cancel_mode") == "inflight" else 0}
     return C.package(world, case, violations, sig, nontrivial, probes)
 
 
 def evidence_extra(tier):
-    return {"systematic_cases": len(_sweep(tier)), "seeded_cases": N_RANDOM[tier],
+    return {"systematic_cases": len(_sweep(tier)), "cancellation_cases": len(_cancel_cases()),
+            "seeded_cases": N_RANDOM[tier],
             "systematic_part": "2 callers x 8 start offsets x all fault scripts of depth %d over 4 symbols x 12 configurations" % SW_DEPTH[tier]}
